@@ -9,7 +9,7 @@ ACCEL_REPO = ["alg/sha256_sse2.c", "alg/sha256_shani.c", "alg/sha1.c", "alg/md5.
               "util/warnp.c", "util/insecure_memzero.c"]
 
 TARGETS = {
-    "h_accel": dict(harness=["h_hash.c", "h_aes.c"], engine=["vf.c", "ref/ref_crc32c.c", "ref/ref_aes.c"], shims=ACCEL_SHIMS,
+    "h_accel": dict(harness=["h_hash.c", "h_aes.c"], engine=["vf.c", "alloc.c", "ref/ref_crc32c.c", "ref/ref_aes.c"], shims=ACCEL_SHIMS, wrap=["malloc", "calloc", "realloc", "free"],
                     repo=ACCEL_REPO, libs=["-lcrypto"], defs=["-Wno-deprecated-declarations", "-DH_COMBINED=1"]),
 }
 
